@@ -107,6 +107,15 @@ def services():
                         yield c
                     raise BodyFails('mid')
                 return g()
+            if mode == 'lazymid':
+                # NOT a generator function: an iterable object that is read lazily and fails part-way
+                # (a file-like value whose second read raises)
+                class Lazy(object):
+                    def __iter__(self_):
+                        for c in chunks:
+                            yield c
+                        raise BodyFails('mid')
+                return Lazy()
             if mode == 'ostring':
                 ctx.out_string = chunks
                 return None
@@ -645,6 +654,7 @@ def make_request(rng, combo, kind):
                           'blob-gen': ('/blob', 'n=%d&sz=%d&mode=gen' % (n, sz)), 'blob-gen0': ('/blob', 'n=0&sz=4&mode=gen'),
                           'blob-genfault': ('/blob', 'n=1&sz=4&mode=genfault'), 'blob-genexn': ('/blob', 'n=1&sz=4&mode=genexn'),
                           'blob-genmid': ('/blob', 'n=%d&sz=%d&mode=genmid' % (n, sz)),
+                          'blob-lazymid': ('/blob', 'n=%d&sz=%d&mode=lazymid' % (n, sz)),
                           'blob-ostring': ('/blob', 'n=%d&sz=%d&mode=ostring' % (n, sz)),
                           'blob-clen': ('/blob', 'n=%d&sz=%d&mode=clen' % (n, sz)),
                           'blob-genclen': ('/blob', 'n=%d&sz=%d&mode=genclen' % (n, sz))})
@@ -681,6 +691,7 @@ def make_request(rng, combo, kind):
                 'blob-genfault': lambda: json_body('blob', {'n': 1, 'sz': sz, 'mode': 'genfault'}, pad),
                 'blob-genexn': lambda: json_body('blob', {'n': 1, 'sz': sz, 'mode': 'genexn'}, pad),
                 'blob-genmid': lambda: json_body('blob', {'n': n, 'sz': sz, 'mode': 'genmid'}, pad),
+                'blob-lazymid': lambda: json_body('blob', {'n': n, 'sz': sz, 'mode': 'lazymid'}, pad),
                 }[kind]()
     r['body'] = body
     return r
@@ -690,10 +701,10 @@ def kinds_for(combo):
     k = list(REQUEST_KINDS)
     if combo == 'http':
         k += ['blob-list', 'blob-list0', 'blob-gen', 'blob-gen0', 'blob-genfault', 'blob-genexn', 'blob-genmid',
-              'blob-ostring', 'blob-clen', 'blob-genclen']
+              'blob-lazymid', 'blob-ostring', 'blob-clen', 'blob-genclen']
     if combo == 'json-http':
         k = ['ok', 'unknown', 'malformed', 'invalid', 'fault', 'exn', 'blob-list', 'blob-gen', 'blob-gen0',
-             'blob-genfault', 'blob-genexn', 'blob-genmid']
+             'blob-genfault', 'blob-genexn', 'blob-genmid', 'blob-lazymid']
     return k
 
 
@@ -750,6 +761,7 @@ def gen_cases(check):
     get = lambda path, qs, body=b'': {'method': 'GET', 'path': path, 'qs': qs, 'ctype': None, 'body': body}
     for chunked in (False, True):
         add('http', 'blob-genmid', get('/blob', 'n=2&sz=4&mode=genmid'), dict(big, chunked=chunked), None, [], None, True)
+        add('http', 'blob-lazymid', get('/blob', 'n=2&sz=4&mode=lazymid'), dict(big, chunked=chunked), None, [], None, True)
     small = {'chunked': True, 'mcl': 250, 'bl': 100}
     add('http', 'ok', get('/echo', 's=hello', b'x' * 300), small, None, [], None, True)
     add('http', 'unknown', get('/nosuch', 's=1', b'x' * 300), small, None, [], None, True)
